@@ -65,6 +65,11 @@ def run(tier, replay_path=None):
         for fl in ("mysql", "pg", "sqlite"):
             for _ in range(400 if tier == "quick" else 6000):
                 trees.append(rand_tree(rng, rng.randint(2, 5), fl))
+    # binary nodes are built through the named builder methods (eq, lte, modulo, left_shift, concat, glob, ...)
+    # that spec/expr_methods.json maps to the operator; a fifth stays on the generic binary()
+    import exprmeth
+    if not replay_path:
+        for e in trees: exprmeth.annotate(e, rng, 0.8)
     cases = [{"id": i, "e": e} for i, e in enumerate(trees)]
     results = {}
     flavours = [("base", "0")] + ([("paren", "1")] if tier == "thorough" and not replay_path else [])
@@ -102,6 +107,8 @@ def run(tier, replay_path=None):
                     elif a[0] == "ok" and a[1] != b[1] and not mk:
                         gaps += 1; V.note("MODEL-GAP: C05 sqlite engine evaluates %r differently from %r" % (v["sql"], v["ref"]))
                         keys.add("C05/sqlite/engine_rows_differ/" + diag)
+            if any(k.startswith("?") for k in keys):
+                raise ToolError("C05: case %d: %s" % (v["id"], sorted(keys)))
             for k in sorted(keys):
                 V.fail(k, {"e": r["e"], "obs": r["obs"], "flavour": fl})
             if keys and json.dumps(r["e"], sort_keys=True) in mv_set:
